@@ -1,3 +1,4 @@
+import Sc3Verif.C03.Model
 /-
 C04 — executable model of how `SynthDef` turns function parameters into controls
 (sc3/synth/synthdef.py `_args_to_controls`, `_build_controls`, `_build_ugen_graph`/`wrap`,
@@ -14,6 +15,7 @@ Numbers (defaults, lags) are `Int` (the harness uses dyadic values scaled by 102
 Core Lean only — this file is loaded by the line-protocol driver.
 -/
 namespace Sc3Verif.C04
+open Sc3Verif.C03 (wrapExtend)
 
 abbrev Val := Int
 
@@ -191,11 +193,6 @@ def buildIta (cls : Cls) (rate : Rate) (g : List CN) (st : St) (idx : List Nat) 
       let r := assign g index (proxiesOf u flat.length) idx args
       .ok (st', r.1, r.2)
 
-/-- `utils.wrap_extend` -/
-def wrapExtend (l : List Val) (n : Nat) : List Val :=
-  if l.length = 0 ∨ n = 0 then []
-  else (List.replicate (n / l.length) l).flatten ++ l.take (n % l.length)
-
 def Lag.asList : Lag → List Val
   | .num v => [v]
   | .list vs => vs
@@ -239,16 +236,24 @@ def ofRate (r : Rate) (cns : List CN) : List CN := cns.filter (·.rate = r)
 
 /-- one level: `_args_to_controls` then `_build_controls`; returns the arguments the body gets -/
 def buildLevel (specs : Nat → Option Val) (st : St) (params : List Param) (rates : List RateSpec)
-    (skip : Nat) : Except Err (St × List ArgVal) := do
+    (skip : Nat) : Except Err (St × List ArgVal) :=
   let cns := argsToControls specs st.controls.length params rates skip
   let idx0 := cns.map (·.index)
   let args0 := cns.map fun _ => ArgVal.unset
-  let (st1, idx1, args1) ← buildIta .control .ir (ofRate .ir cns) st idx0 args0
-  let (st2, idx2, args2) ← buildIta .trigControl .tr (ofRate .tr cns) st1 idx1 args1
-  let (st3, idx3, args3) ← buildIta .audioControl .ar (ofRate .ar cns) st2 idx2 args2
-  let (st4, idx4, args4) ← buildKr (ofRate .kr cns) st3 idx3 args3
-  let named := List.zipWith (fun (cn : CN) i => { cn with index := i }) cns idx4
-  .ok ({ st4 with names := st4.names ++ named }, args4)
+  match buildIta .control .ir (ofRate .ir cns) st idx0 args0 with
+  | .error e => .error e
+  | .ok (st1, idx1, args1) =>
+    match buildIta .trigControl .tr (ofRate .tr cns) st1 idx1 args1 with
+    | .error e => .error e
+    | .ok (st2, idx2, args2) =>
+      match buildIta .audioControl .ar (ofRate .ar cns) st2 idx2 args2 with
+      | .error e => .error e
+      | .ok (st3, idx3, args3) =>
+        match buildKr (ofRate .kr cns) st3 idx3 args3 with
+        | .error e => .error e
+        | .ok (st4, idx4, args4) =>
+          let named := List.zipWith (fun (cn : CN) i => { cn with index := i }) cns idx4
+          .ok ({ st4 with names := st4.names ++ named }, args4)
 
 structure Level where
   params : List Param
